@@ -236,7 +236,10 @@ pub fn unflatten(c: &mut HashMap<String, Map<String, Value>>, value: &Value) -> 
                             panic!("expecting_order_field_in_descriptor")
                         }
                     }
-                    None => panic!("unknown_descriptor_object"),
+                    // A dangling reference (e.g. the array was deleted concurrently with an
+                    // edit of the object that references it) reads as null, like a dangling
+                    // object reference below
+                    None => Some(json!(null)),
                 }
             } else {
                 match c.remove(s) {
